@@ -37,7 +37,7 @@ ASSUMPTIONS = [
     "the documented meaning of each constructor is transcribed in vf/tx.py:cls_sat from docs/types.md",
     "user class_check predicates are total and side-effect free",
 ]
-REPORT_COUNTERS = ["pairs_subclasscheck", "pairs_dispatch", "law_transitive", "law_issubclass",
+REPORT_COUNTERS = ["pairs_subclasscheck", "pairs_dispatch", "pairs_dispatch_two_parameters", "law_transitive", "law_issubclass",
                    "law_covariance", "deferred_before_import", "deferred_after_import", "late_registration_checked"]
 
 CLOSED_HEADS = {"U", "I", "S", "H"}  # meanings closed under subclassing (with class atoms)
@@ -47,7 +47,7 @@ def plan(tier):
     n = 480 if tier == "quick" else 9600
     return {"cases": n, "params": {"ntypes": 40 if tier == "quick" else 60},
             "timeout_s": 900 if tier == "quick" else 3600,
-            "min": {"pairs_subclasscheck": 50_000, "pairs_dispatch": 50_000, "depth2_types": 2_000,
+            "min": {"pairs_subclasscheck": 50_000, "pairs_dispatch": 50_000, "pairs_dispatch_two_parameters": 50_000, "depth2_types": 2_000,
                     "law_covariance": 500, "deferred_after_import": 200}}
 
 
@@ -117,8 +117,13 @@ def check_case(spec, res):
         ma, f2 = make_method({"mid": 0, "pos": [{"n": "x", "t": "object"}]}, env, vf, ["return 0"], tag="c13")
         o.register(mt)
         o.register(ma, priority=-1)
-        files += [f1, f2]
-        built.append((tx, A, N, o))
+        # the same type as the *first* of two parameters of a function that has no catch-all
+        o2 = Ovld()
+        m2, f3 = make_method({"mid": 2, "pos": [{"n": "x"}, {"n": "y", "t": "int"}]}, env, vf, ["return 2"], tag="c13",
+                             ann_override={"x": A})
+        o2.register(m2)
+        files += [f1, f2, f3]
+        built.append((tx, A, N, o, o2))
 
     dclasses = []
     if spec.get("dmod"):
@@ -126,7 +131,7 @@ def check_case(spec, res):
         pre = spec["dmod"] in sys.modules
         if not pre:
             # before import nothing in the corpus can match a Deferred type of that module
-            for tx, A, N, o in built:
+            for tx, A, N, o, o2 in built:
                 if not isinstance(tx, str) and tx[0] == "Df":
                     for cn, C in corpus:
                         res.ev()
@@ -137,7 +142,7 @@ def check_case(spec, res):
         mod = importlib.import_module(spec["dmod"])
         dclasses = [(f"{spec['dmod']}.{n}", getattr(mod, n)) for n in ("Thing", "Sub", "Other")]
 
-    for tx, A, N, o in built:
+    for tx, A, N, o, o2 in built:
         if T.depth(tx) >= 2:
             res.count("depth2_types")
             res.nontrivial([rel, T.tname(tx)])
@@ -184,6 +189,14 @@ def check_case(spec, res):
                 res.violation("meaning-vs-dispatch", [sorted(hs), exp, out[0]], spec,
                               observed={"type": T.tname(tx), "class": cn, "outcome": list(map(str, out))[:3]},
                               acceptable="T-method runs" if exp else "catch-all runs")
+            # m3: first of two parameters, no catch-all: the method runs exactly when the class satisfies the type
+            res.count("pairs_dispatch_two_parameters")
+            out2 = outcome(lambda: o2(inst, 1), vf)
+            ran2 = out2[0] == "ran" and out2[1] == (2,)
+            if (ran2 if not exp else not ran2) or (not exp and out2[0] not in ("none", "bind")):
+                res.violation("meaning-vs-dispatch-two-parameters", [sorted(hs), exp, out2[0]], spec,
+                              observed={"type": T.tname(tx), "class": cn, "outcome": list(map(str, out2))[:3]},
+                              acceptable="the method runs" if exp else "no applicable method")
         # l2 transitivity (closed meanings only)
         if _closed(tx):
             allc = corpus + dclasses
